@@ -2,7 +2,7 @@ import numpy as np
 from glue.core import Data
 from glue.core.exceptions import IncompatibleAttribute, IncompatibleDataException
 from glue.core.component import DaskComponent
-from glue.core.coordinate_helpers import dependent_axes
+from glue.core.coordinate_helpers import dependent_axes, pixel2world_single_axis
 from glue.utils import unbroadcast, broadcast_arrays_minimal
 
 # TODO: cache needs to be updated when links are removed/changed
@@ -58,7 +58,13 @@ def translate_pixel(data, pixel_coords, target_cid):
                 comp = data.get_component(target_cid)
             else:
                 comp = data._world_components[target_cid]
-            return comp._calculate(view=pixel_coords), dependent_axes(data.coords, comp.axis)
+            # The pixel coordinates are positions, which can lie outside the
+            # dataset or between pixels, and not array indices (which count
+            # from the end of the axis when negative), so we convert them
+            # directly rather than using them as a view of the component.
+            world_axis = data.ndim - 1 - comp.axis
+            values = pixel2world_single_axis(data.coords, *pixel_coords[::-1], world_axis=world_axis)
+            return values, dependent_axes(data.coords, comp.axis)
         else:
             raise IncompatibleAttribute(target_cid)
 
